@@ -11,8 +11,8 @@ RULE = ("C03-style workloads (random/swept cuts, reordering+duplicating real ser
         "received messages unread (never / at most k get_message calls) so a backlog exists at close. Non-trivial = a verifier "
         "was seen and the wormhole closed with extra gets issued; distinct = decision traces.")
 ASSUMPTIONS = ["Deferred callbacks fire in the order the eventual queue was fed, so firing order = event order"]
-FLOORS = {"quick": {"extra_gets": 2000, "gets_after_close": 300, "closed": 600, "order_preserving_cases": 100, "unread_backlog_at_close": 40, "delegate_callbacks_raised": 40, "long_sessions_with_late_drops": 8},
-          "thorough": {"extra_gets": 40000, "gets_after_close": 6000, "closed": 10000, "order_preserving_cases": 2000, "unread_backlog_at_close": 2500, "delegate_callbacks_raised": 1500, "long_sessions_with_late_drops": 250}}
+FLOORS = {"quick": {"extra_gets": 2000, "gets_after_close": 300, "closed": 600, "order_preserving_cases": 100, "unread_backlog_at_close": 40, "codes_set_after_the_wormhole_closed": 20, "delegate_callbacks_raised": 40, "long_sessions_with_late_drops": 8},
+          "thorough": {"codes_set_after_the_wormhole_closed": 600, "extra_gets": 40000, "gets_after_close": 6000, "closed": 10000, "order_preserving_cases": 2000, "unread_backlog_at_close": 2500, "delegate_callbacks_raised": 1500, "long_sessions_with_late_drops": 250}}
 ORDER = {"code": 0, "key": 1, "verifier": 2, "versions": 3, "msg": 3, "closed": 4}
 GETS = ["welcome", "code", "unverified_key", "verifier", "versions", "message"]
 
@@ -45,6 +45,12 @@ def cases(tier, seed, prep=None):
         out.append({"kind": "random", "seed": seed * 1000003 + 770000 + i, "server": ("plain" if i % 3 == 0 else "reorder"),
                     "mismatch": False, "ndrops": [1, 2, 3], "drop_kinds": ["cut", "cut", "server-close"], "cfg_over": {"api_" + who: "delegate"},
                     "min_msgs": 70, "max_msgs": 100, "max_size": 6, "late_drops": True})
+    # the code becomes known only after the wormhole has ended: B closes (or is closed by a welcome error) before its
+    # application gets round to set_code(); nothing may be announced after the closed notification
+    for i in range(40 if tier == "quick" else 1200):
+        out.append({"kind": "random", "seed": seed * 1000003 + 780000 + i, "server": "plain", "mismatch": False, "ndrops": [0],
+                    "cfg_over": {"api_b": ["delegate", "delegate", "deferred"][i % 3], "b_code": "set", "a_code": "set", "code_after_close": True},
+                    "late_code": ["close", "welcome-error"][i % 2], "late_code_at": [0, 1, 3, 8, 20][i % 5]})
     bases = range(2) if tier == "quick" else range(16)
     for b in bases:
         for who in "AB":
@@ -55,9 +61,22 @@ def cases(tier, seed, prep=None):
 
 
 def run_case(spec):
+    if spec.get("late_code") == "welcome-error":
+        spec = dict(spec, welcome_error="the server is closed for maintenance")
     world, drv, sch, cfg = build_case(spec, max_msgs=spec.get("max_msgs", 6), max_size=spec.get("max_size", 100),
                                       adversary=(spec["server"] == "reorder"))
     rng = world.work_rng
+    if spec.get("late_code"):
+        # B's application is slow to set its code: hold set_code back until B has been told that the wormhole is closed
+        base0 = drv.actions
+
+        def gated():
+            return [a for a in base0() if a[0] != ("app", "B.set_code") or drv.b.closed]
+        drv.actions = gated
+        drv.drain_actions = gated
+        if spec["late_code"] == "close":
+            sch.faults.append((spec["late_code_at"], drv.b.close, "B closes before its code is set"))
+            sch.faults.sort(key=lambda f: f[0])
     if spec.get("mismatch"):
         drv.cfg["code_b"] = None   # decided when A's code is known
         orig = drv.code_for_b
@@ -99,6 +118,8 @@ def run_case(spec):
         rd = drv.app("B" if spec["unread"] == "A" else "A")     # the side that does read everything
         nr = drv.app(spec["unread"])
         done = lambda: drv.all_sent() and rd.msgs == nr.sent
+    if spec.get("late_code"):
+        done = lambda: drv.b.closed and drv.b_started
     if spec.get("late_drops"):
         sch.faults = [(k + 500 + 200 * i, fn, lab) for i, (k, fn, lab) in enumerate(sch.faults)]
         end = sch.run(8000, until=lambda: done() and not sch.faults)
@@ -110,8 +131,9 @@ def run_case(spec):
     if spec.get("unread"):
         sch.drain(20.0, 600)
         backlog = len(getattr(getattr(nr.w, "_received_observer", None), "_results", ()))
-    drv.a.close()
-    drv.b.close()
+    for app_ in (drv.a, drv.b):
+        if not app_.close_calls:          # (a side that has closed itself already is not closed a second time)
+            app_.close()
     sch.drain(120.0, 4000, until=lambda: drv.a.closed and drv.b.closed)
     # after close: a burst of late gets, then one more drain turn
     for app in (drv.a, drv.b):
@@ -217,6 +239,7 @@ def run_case(spec):
                          mismatch_cases=int(bool(spec.get("mismatch"))),
                          long_sessions_with_late_drops=int(bool(spec.get("late_drops")) and drv.drops_done > 0 and len(drv.a.msgs) + len(drv.b.msgs) >= 130),
                          unread_backlog_at_close=backlog, delegate_callbacks_raised=(getattr(drv.a, "raised", 0) + getattr(drv.b, "raised", 0)), delegate_sides=int(drv.a.api == "delegate") + int(drv.b.api == "delegate"),
+                         codes_set_after_the_wormhole_closed=int(bool(spec.get("late_code")) and drv.b_started and drv.b.closed),
                          notrans_seen=len(MON.notrans), log_errors_seen=len(MON.errors)),
         "sets": {"event_sequences": [" ".join(k for k in drv.a.kinds() if k in ORDER)]},
         "sample": {"spec": spec, "A": drv.a.kinds(), "B": drv.b.kinds(), "A_gets": drv.a.get_results[:10],
